@@ -5,6 +5,7 @@ from ..core.loader import AnalysisError, own_nodes, norm, enclosing_stmt, ancest
 from ..core import astq, regions as R
 from ..core.cfg import guards_of, ENTRY, EXIT
 from . import common as K
+from . import flowalg
 
 EXPLANATION = (
     "Ordering and data-flow necessary conditions: R06a per parameter and step, function evaluation precedes the program overwrite, which precedes the population "
@@ -27,6 +28,8 @@ def run(ctx):
     ctx.each(r06f, ctx, repo)
     ctx.each(r06g, ctx, repo)
     ctx.each(r06h, ctx, repo)
+    ctx.each(r06i, ctx, repo)
+    ctx.each(flowalg.accumulator_rule, ctx, repo, "R06j", [("model", "Parameter.update")], 4, "the dependency sums of a parameter function")
 
 
 def _ids(cfg, stmts):
@@ -525,3 +528,56 @@ def r06h(ctx, repo):
                         ok = from_fw or fixed
                     ctx.check(ok, "R06h", f, s, "limits = [minimum value or -inf, maximum value or +inf] (or a fixed lower bound with no upper bound)", "`%s` does not build limits as [lower, upper] from the framework's minimum / maximum value (or a fixed non-negative lower bound and +inf)" % norm(s)[:80])
     ctx.require(n >= 1, "R06h: no assignment of Parameter.limits from the framework found in model.py")
+
+
+def _conj(t):
+    return [ast.unparse(v) for v in (t.values if isinstance(t, ast.BoolOp) and isinstance(t.op, ast.And) else [t])]
+
+
+def r06i(ctx, repo):
+    ctx.rule("R06i", "which parameters are stepped, and after what: (a) a dependency edge is added for every non-derivative dependency (guard: dep is a framework parameter and not a derivative) and for the aggregated quantity of a population aggregation; (b) a parameter is kept for the per-step update iff it is dynamic or targeted by the program set, and dynamic_pars filters on that flag; (c) transition_pars holds every parameter that has links and is not in proportion units; (d) characteristics are stepped in dependency order (included characteristics and the denominator first)")
+    so = repo.func("model", "Model._set_exec_order")
+    me = K.self_name(so)
+    # (a)
+    edges = [c for c in own_nodes(so.node) if isinstance(c, ast.Call) and isinstance(c.func, ast.Attribute) and c.func.attr == "add_edge"]
+    dep_edges = [c for c in edges if len(c.args) >= 2 and ast.unparse(c.args[1]).endswith("par.name")]
+    ctx.require(len(dep_edges) >= 2, "R06i: parameter dependency edges not found")
+    for c in dep_edges:
+        x = ast.unparse(c.args[0])
+        lp = [l for l in K.enclosing_loops(c) if ast.unparse(l.iter).endswith(".pars")]
+        g = sorted(cj for t, pol in guards_of(c, stop=lp[0] if lp else None) if pol for cj in _conj(t))
+        gneg = [ast.unparse(t) for t, pol in guards_of(c, stop=lp[0] if lp else None) if not pol]
+        want = sorted(["%s in par_derivative" % x, "par_derivative[%s] != 'y'" % x] + (["par.pop_aggregation"] if "pop_aggregation" in x else []))
+        ctx.check(g == want and not gneg, "R06i", so, enclosing_stmt(c), "edge %s -> par for every non-derivative parameter dependency" % x, "the dependency edge `%s` is added under %s (negated: %s), expected exactly %s: a dependency without an edge may be evaluated after the parameter that uses it, which then sees last step's value" % (ast.unparse(c), g, gneg, want))
+    # (b)
+    keep = [s for s in own_nodes(so.node) if isinstance(s, ast.Assign) and isinstance(s.targets[0], ast.Subscript) and ast.unparse(s.targets[0]).endswith("['keep']")]
+    ctx.require(len(keep) == 1, "R06i: the `keep` flag store was not found in _set_exec_order")
+    lp = [l for l in K.enclosing_loops(keep[0]) if ast.unparse(l.iter).endswith(".pars")]
+    gs = guards_of(keep[0], stop=lp[0] if lp else None)
+    ok = len(gs) == 1 and gs[0][1] and isinstance(gs[0][0], ast.BoolOp) and isinstance(gs[0][0].op, ast.Or) and sorted(ast.unparse(v) for v in gs[0][0].values) == sorted(["par._is_dynamic", "%s.progset and par.name in %s.progset.pars" % (me, me)]) and isinstance(keep[0].value, ast.Constant) and keep[0].value.value is True and ast.unparse(keep[0].targets[0]).startswith("G.nodes[par.name]")
+    ctx.check(ok, "R06i", so, keep[0], "kept iff dynamic or targeted by a program", "`%s` is executed under %s, expected `par._is_dynamic or (self.progset and par.name in self.progset.pars)`: dynamic or program-targeted parameters missing from the per-step list are never re-evaluated (or overwritten by programs) during the run" % (norm(keep[0]), [(ast.unparse(t)[:80], p) for t, p in gs]))
+    dyn = [s for s in own_nodes(so.node) if isinstance(s, ast.Assign) and "['dynamic_pars']" in ast.unparse(s.targets[0])]
+    if dyn and isinstance(dyn[0].value, ast.ListComp):
+        ifs = [ast.unparse(i) for i in dyn[0].value.generators[0].ifs]
+        x = ast.unparse(dyn[0].value.generators[0].target)
+        ctx.check(ifs == ["G.nodes[%s]['keep']" % x], "R06i", so, dyn[0], "dynamic_pars filters on the keep flag", "exec_order['dynamic_pars'] filters on %s, expected the keep flag of each node" % ifs)
+    # (c)
+    tp = [c for c in own_nodes(so.node) if isinstance(c, ast.Call) and isinstance(c.func, ast.Attribute) and c.func.attr == "append" and "['transition_pars']" in ast.unparse(c.func.value)]
+    ctx.require(len(tp) == 1, "R06i: transition_pars.append not found")
+    lp = [l for l in K.enclosing_loops(tp[0]) if ast.unparse(l.iter).endswith(".pars")]
+    g = sorted(cj for t, pol in guards_of(tp[0], stop=lp[0] if lp else None) if pol for cj in _conj(t))
+    gneg = [ast.unparse(t) for t, pol in guards_of(tp[0], stop=lp[0] if lp else None) if not pol]
+    ok = g == sorted(["par.links", "par.units != FS.QUANTITY_TYPE_PROPORTION"]) and not gneg and ast.unparse(tp[0].args[0]) == "par" and bool(lp) and ast.unparse(lp[0].iter) == "pop.pars"
+    ctx.check(ok, "R06i", so, enclosing_stmt(tp[0]), "transition_pars = every parameter with links, except proportions", "transition_pars receives a parameter under %s (negated %s), expected `par.links and par.units != FS.QUANTITY_TYPE_PROPORTION`: a transition parameter missing from the list never gets its flow computed" % (g, gneg))
+    # (d)
+    ch = [s for s in own_nodes(so.node) if isinstance(s, ast.Assign) and "['characs']" in ast.unparse(s.targets[0])]
+    ctx.require(len(ch) == 1 and "topological_sort" in ast.unparse(ch[0].value), "R06i: exec_order['characs'] is not a topological sort")
+    cedges = [c for c in edges if len(c.args) >= 2 and ast.unparse(c.args[1]) == "charac"]
+    have = {ast.unparse(c.args[0]) for c in cedges}
+    ok = {"include", "charac.denominator"} <= have
+    for c in cedges:
+        x = ast.unparse(c.args[0])
+        lp = [l for l in K.enclosing_loops(c) if ast.unparse(l.iter).endswith(".characs")]
+        g = [(ast.unparse(t), pol) for t, pol in guards_of(c, stop=lp[0] if lp else None)]
+        ok = ok and g == [("isinstance(%s, Characteristic)" % x, True)]
+    ctx.check(ok, "R06i", so, ch[0], "characteristic order: includes and denominator before the characteristic", "the characteristic ordering graph lacks an edge (included characteristic -> characteristic, denominator -> characteristic, each under its isinstance test): a characteristic built from another one can be summed before its member is updated, so it reports last step's value")
